@@ -6358,10 +6358,13 @@ def adopt_static_functions(tree):
 
 
 def fuse_collect_loops(fn):
-    """`L = []; for x in IT: [if c:] L.append(E)` directly followed by
+    """`L = []; for x in IT: ... L.append(E) ...` directly followed by
     `for T in L: BODY` (L generated by the inliner from a generator helper,
-    used nowhere else) -> `for x in IT: [if c:] T = E; BODY` - the
-    interleaving the generator had"""
+    used nowhere else; one append statement) -> the first loop with
+    `T = E; BODY` in place of the append - the interleaving the generator
+    had (BODY runs where the generator yields).  If BODY leaves its pass
+    early (`continue`/`break`), the append must be the last thing the pass
+    of the first loop does."""
     done = False
     for par in [fn] + list(_walk_own(fn)):
         for fld in ("body", "orelse", "finalbody"):
@@ -6380,7 +6383,6 @@ def fuse_collect_loops(fn):
                              or a.targets[0].id.startswith("_items"))):
                     continue
                 L = a.targets[0].id
-                # an alias `X = L` between the two loops
                 span = 3
                 X = L
                 if isinstance(c, ast.Assign) and len(c.targets) == 1 and \
@@ -6395,48 +6397,71 @@ def fuse_collect_loops(fn):
                     if sum(1 for n in ast.walk(fn) if isinstance(
                             n, ast.Name) and n.id == X) != 2:
                         continue
-                if not (isinstance(b, ast.For) and not b.orelse and len(
-                        b.body) == 1 and isinstance(c, ast.For)
+                if not (isinstance(b, ast.For) and not b.orelse
+                        and isinstance(c, ast.For)
                         and not c.orelse and isinstance(c.iter, ast.Name)
                         and c.iter.id == X):
-                    continue
-                inner = b.body[0]
-                guard = None
-                if isinstance(inner, ast.If) and not inner.orelse and len(
-                        inner.body) == 1:
-                    guard, inner = inner, inner.body[0]
-                if not (isinstance(inner, ast.Expr) and isinstance(
-                        inner.value, ast.Call) and isinstance(
-                        inner.value.func, ast.Attribute)
-                        and inner.value.func.attr == "append"
-                        and isinstance(inner.value.func.value, ast.Name)
-                        and inner.value.func.value.id == L
-                        and len(inner.value.args) == 1):
                     continue
                 if sum(1 for n in ast.walk(fn) if isinstance(n, ast.Name)
                        and n.id == L) != 3:
                     continue
-                # loop variables of the first loop must not clash with
-                # names of the second
-                v1 = set(target_names(b.target))
+                # the one append statement and the block that holds it
+                found = []
+
+                def scan(stmts, tail):
+                    for k_, s_ in enumerate(stmts):
+                        last = tail and k_ == len(stmts) - 1
+                        if isinstance(s_, ast.Expr) and isinstance(
+                                s_.value, ast.Call) and isinstance(
+                                s_.value.func, ast.Attribute) and \
+                                s_.value.func.attr == "append" and \
+                                isinstance(s_.value.func.value, ast.Name) \
+                                and s_.value.func.value.id == L and len(
+                                    s_.value.args) == 1:
+                            found.append((stmts, k_, last))
+                        elif isinstance(s_, ast.If):
+                            scan(s_.body, last)
+                            scan(s_.orelse, last)
+                        elif isinstance(s_, (ast.With, ast.Try)):
+                            scan(s_.body, False)
+                        elif isinstance(s_, (ast.For, ast.While)):
+                            scan(s_.body, False)
+                scan(b.body, True)
+                if len(found) != 1:
+                    continue
+                stmts, k_, is_tail = found[0]
+                # does BODY leave its pass early?
+                inner_loops = {id(y) for z in ast.walk(c) if z is not c
+                               and isinstance(z, (ast.For, ast.While))
+                               for y in ast.walk(z)}
+                early = any(isinstance(y, (ast.Break, ast.Continue))
+                            and id(y) not in inner_loops
+                            for s_ in c.body for y in ast.walk(s_))
+                if early and not is_tail:
+                    continue
+                # in a nested loop of the first loop a `break` of BODY would
+                # bind to the wrong loop
+                if early and stmts is not b.body and any(
+                        isinstance(z, (ast.For, ast.While)) and any(
+                            y is stmts[k_] for y in ast.walk(z))
+                        for s_ in b.body for z in ast.walk(s_)):
+                    continue
+                v1 = set(target_names(b.target)) | {
+                    n.id for s_ in b.body for n in ast.walk(s_)
+                    if isinstance(n, ast.Name) and isinstance(
+                        n.ctx, ast.Store)}
                 if v1 & {n.id for n in ast.walk(c) if isinstance(
-                        n, ast.Name)}:
+                        n, ast.Name) and isinstance(n.ctx, ast.Store)}:
                     continue
                 bind = ast.Assign(targets=[c.target],
-                                  value=inner.value.args[0])
+                                  value=stmts[k_].value.args[0])
                 ast.copy_location(bind, c)
-                new_body = [bind] + c.body
-                if guard is not None:
-                    guard.body = new_body
-                    b.body = [guard]
-                else:
-                    b.body = new_body
+                stmts[k_:k_ + 1] = [bind] + c.body
                 blk[i - 1:i - 1 + span] = [b]
                 ast.fix_missing_locations(b)
                 done = True
                 i = max(0, i - 1)
     return done
-
 
 def sentinel_branches(tree):
     """`if c: v = E else: v = SENTINEL` directly followed by
